@@ -149,6 +149,12 @@ Theorem C09_message_text_header : forall cells rt f,
 Proof. exact message_text_header. Qed.
 Print Assumptions C09_message_text_header.
 
+(* the short headers the property names re-key like the long forms their names say *)
+Theorem C09_named_short_headers : forall short long, In (short, long) named_short_headers ->
+  forall cells, ctx_h2f flow_ctx cells short = Ok long /\ ctx_h2f flow_ctx cells long = Ok long.
+Proof. exact named_short_headers_ok. Qed.
+Print Assumptions C09_named_short_headers.
+
 (* rows that differ only in the short/long spelling of their headers parse identically —
    for every row, well-formed or not *)
 Theorem C09_short_long_layouts : forall cells cells',
